@@ -37,7 +37,7 @@ func goEnv() []string {
 // runOverlayTest compiles testSrc as an extra in-package _test.go file of pkgDir (relative to the repo)
 // through -overlay (nothing is written into /repo) and runs the tests matching runRe.
 // Returns per-test verdicts ("pass"/"fail") and the combined output.
-func runOverlayTest(pkgDir, testSrc, runRe, wd string) (map[string]string, string, error) {
+func runOverlayTest(pkgDir, testSrc, runRe, wd string, extra ...string) (map[string]string, string, error) {
 	repo := repoDir()
 	abs := filepath.Join(repo, pkgDir, "zz_gvc_overlay_test.go")
 	src := filepath.Join(wd, fmt.Sprintf("ovl_%d_%s.go", os.Getpid(), sanitize(pkgDir)))
@@ -51,7 +51,10 @@ func runOverlayTest(pkgDir, testSrc, runRe, wd string) (map[string]string, strin
 	ctx, cancel := context.WithTimeout(context.Background(), 180*time.Second)
 	defer cancel()
 	pkgArg := "./" + pkgDir
-	cmd := exec.CommandContext(ctx, "go", "test", "-overlay", ovf, "-vet=off", "-count=1", "-timeout", "60s", "-run", runRe, "-json", pkgArg)
+	args := []string{"test", "-overlay", ovf, "-vet=off", "-count=1", "-timeout", "60s", "-run", runRe, "-json"}
+	args = append(args, extra...)
+	args = append(args, pkgArg)
+	cmd := exec.CommandContext(ctx, "go", args...)
 	cmd.Dir = repo
 	cmd.Env = goEnv()
 	var out bytes.Buffer
@@ -94,6 +97,9 @@ func runWitnesses(kfs []KnownFinding, wd string) map[string]string {
 		if p == "" {
 			p = "."
 		}
+		if kf.Race {
+			p += "|race"
+		}
 		byPkg[p] = append(byPkg[p], kf)
 	}
 	var pkgs []string
@@ -101,11 +107,16 @@ func runWitnesses(kfs []KnownFinding, wd string) map[string]string {
 		pkgs = append(pkgs, p)
 	}
 	sort.Strings(pkgs)
-	for _, p := range pkgs {
+	for _, pk := range pkgs {
+		p := strings.TrimSuffix(pk, "|race")
+		var extra []string
+		if p != pk {
+			extra = append(extra, "-race")
+		}
 		pkgName := goPackageName(filepath.Join(repoDir(), p))
 		imports := map[string]bool{"testing": true}
 		var body strings.Builder
-		for _, kf := range byPkg[p] {
+		for _, kf := range byPkg[pk] {
 			for _, im := range kf.Imports {
 				imports[im] = true
 			}
@@ -118,8 +129,8 @@ func runWitnesses(kfs []KnownFinding, wd string) map[string]string {
 		}
 		src.WriteString(")\n\n")
 		src.WriteString(body.String())
-		res, human, err := runOverlayTest(p, src.String(), "^TestGvcWitness_", wd)
-		for _, kf := range byPkg[p] {
+		res, human, err := runOverlayTest(p, src.String(), "^TestGvcWitness_", wd, extra...)
+		for _, kf := range byPkg[pk] {
 			name := "TestGvcWitness_" + sanitize(kf.ID)
 			switch {
 			case err != nil:
